@@ -98,7 +98,9 @@ impl DataCfg {
     }
 }
 
-pub const TEXT_POOL: &[&str] = &["a", "b", "ab", "A", "abc", "b c", "Zz", "10", "x9", "\u{e5}b", "q"];
+pub const TEXT_POOL: &[&str] = &["a", "b", "ab", "A", "abc", "b c", "Zz", "10", "x9", "\u{e5}b", "q",
+    // case mappings that are not one character to one character, or depend on the position in the word
+    "\u{39f}\u{394}\u{39f}\u{3a3}", "Stra\u{df}e", "\u{130}x", "\u{1c5}", "\u{fb01}n"];
 pub const TS_POOL: &[&str] = &["2021-03-04 05:06:07", "2021-03-04 05:06:08", "2020-02-29 23:59:59", "1999-12-31 00:00:00", "2021-03-05 00:00:00", "2022-11-30 12:30:00"];
 pub const IV_POOL: &[&str] = &["0:00:00", "0:00:01", "1:02:03", "0:59:59", "24:00:00", "100:00:00", "0:01:00"];
 
@@ -116,6 +118,7 @@ pub fn std_cell(rng: &mut Rng, name: &str, ty: &Ty, cfg: &DataCfg, col_index: us
         }
         Ty::Real => {
             if cfg.hostile && rng.chance(1, 6) { Cell::Real(*rng.pick(&[1e308, -1e308, 0.0, 1e-300, 9007199254740993.0])) }
+            else if rng.chance(1, 16) { Cell::Real(-0.0) } // equal to 0.0 as a key, a group member and a join partner
             else { Cell::Real(rng.range(-24, 40) as f64 / 8.0) }
         }
         Ty::Bool => Cell::Bool(rng.chance(1, 2)),
